@@ -15,9 +15,11 @@ import (
 	"encoding/json"
 	"fmt"
 	"strings"
+	"sync/atomic"
 
 	"github.com/agglayer/aggkit/bridgesync"
 	"github.com/ethereum/go-ethereum/common"
+	"github.com/ethereum/go-ethereum/crypto"
 	"verif/h/kit"
 	"verif/h/mc"
 )
@@ -79,6 +81,7 @@ func units(tier string) []mc.Unit {
 
 // fakeRPC answers debug_traceTransaction for exactly one transaction.
 type fakeRPC struct {
+	tx     common.Hash
 	answer []byte
 	calls  int
 	bad    string
@@ -94,7 +97,7 @@ func (f *fakeRPC) Call(result any, method string, args ...any) error {
 		f.bad = fmt.Sprintf("%d arguments", len(args))
 		return fmt.Errorf("fake node: bad arguments")
 	}
-	if h, ok := args[0].(common.Hash); !ok || h != txHash {
+	if h, ok := args[0].(common.Hash); !ok || h != f.tx {
 		f.bad = fmt.Sprintf("transaction %v", args[0])
 		return fmt.Errorf("fake node: transaction not found")
 	}
@@ -106,7 +109,7 @@ func (f *fakeRPC) Call(result any, method string, args ...any) error {
 }
 
 // initialClaim is the claim as the event handlers build it before looking at the trace.
-func initialClaim(flav int) *bridgesync.Claim {
+func initialClaim(flav int, tx common.Hash) *bridgesync.Claim {
 	c := &bridgesync.Claim{
 		BlockNum:           42,
 		BlockPos:           3,
@@ -118,11 +121,17 @@ func initialClaim(flav int) *bridgesync.Claim {
 	}
 	if flav != flavLegacy { // the etrog handler also fills these
 		c.BlockTimestamp = 1700000000
-		c.TxHash = txHash
+		c.TxHash = tx
 		c.FromAddress = bridgeAddr
 	}
 	return c
 }
+
+// reincludeMaxFrames: trees up to this size are also explored after the same transaction hash was traced with
+// another execution (set per tier in main).
+var reincludeMaxFrames = 3
+
+var txSeq atomic.Int64
 
 func run(c *mc.Ctx, u mc.Unit) {
 	p := u.Params.(params)
@@ -134,12 +143,30 @@ func run(c *mc.Ctx, u mc.Unit) {
 	ev := eventIndex(p.Flavour)
 	elig := eligible(fs, ev)
 
-	claim := initialClaim(p.Flavour)
+	// every execution uses a transaction hash of its own, so that nothing a process-wide cache keyed by the hash may
+	// have kept from an earlier execution of this worker process can reach this one (executions stay independent)
+	tx := crypto.Keccak256Hash(txHash[:], []byte(fmt.Sprint(txSeq.Add(1))))
+	claim := initialClaim(p.Flavour, tx)
 	before := detailsOf(claim)
 	beforeEvent := eventPart(claim)
-	rpc := &fakeRPC{answer: traceJSON(fs)}
+	// Re-inclusion: the same transaction (same hash) was traced before on a fork that has been reorged away, where
+	// it executed differently (a chain of seven frames whose innermost one is the only matching call, so its details
+	// differ from those of every frame of the tree under test). What the node learnt then must not leak into this trace.
+	if len(p.Shape) <= reincludeMaxFrames && c.Bool("same-transaction-was-traced-before-on-a-dropped-fork") {
+		oldShape, oldLabels := []int{-1, 0, 1, 2, 3, 4, 5}, []int{kindOther, kindOther, kindOther, kindOther, kindOther, kindOther, kindTargetA}
+		old := buildFrames(oldShape, oldLabels, p.CodecA, p.CodecB, p.Flavour)
+		if len(eligible(old, ev)) == 1 { // (some codec / event combinations cannot carry the event's index at all)
+			scratch := initialClaim(p.Flavour, tx)
+			if err := bridgesync.VerifSetClaimCalldata(scratch, &fakeRPC{answer: traceJSON(old), tx: tx}, bridgeAddr, tx); err != nil {
+				c.Failf("harness/old-fork-trace-rejected", "the dropped fork's trace was rejected: %v", err)
+				return
+			}
+			c.Witness("transaction_traced_before_on_a_dropped_fork")
+		}
+	}
+	rpc := &fakeRPC{answer: traceJSON(fs), tx: tx}
 
-	err := bridgesync.VerifSetClaimCalldata(claim, rpc, bridgeAddr, txHash)
+	err := bridgesync.VerifSetClaimCalldata(claim, rpc, bridgeAddr, tx)
 
 	after := detailsOf(claim)
 	tree := describeTree(fs)
@@ -198,7 +225,7 @@ func run(c *mc.Ctx, u mc.Unit) {
 
 	if rpc.calls != 1 || rpc.bad != "" {
 		c.Failf("wrong-trace-request", "tree %s: %d requests to the node, bad: %q (expected one debug_traceTransaction of %s with callTracer)",
-			tree, rpc.calls, rpc.bad, txHash.Hex())
+			tree, rpc.calls, rpc.bad, "<this execution's transaction>")
 	}
 	if got := eventPart(claim); got != beforeEvent {
 		c.Failf("event-fields-changed", "tree %s: fields taken from the event log changed: before {%s} after {%s}", tree, beforeEvent, got)
@@ -279,7 +306,13 @@ func main() {
 			return 12
 		},
 		Run:   run,
-		Setup: func(string) { kit.Quiet(); abis() },
+		Setup: func(tier string) {
+			kit.Quiet()
+			abis()
+			if tier == "thorough" {
+				reincludeMaxFrames = 4
+			}
+		},
 		Rule: "unit = (ordered tree shape, codec of payload A, codec of payload B and of other-index calls, flavour of the event's " +
 			"global index); inside a unit one choice point per frame (root included, preorder) picks one of 8 labels = " +
 			"{other contract, bridge claim with the event's index payload A, bridge claim with another index, bridge claim with the " +
